@@ -10,7 +10,11 @@
 (* terminals (number 0 = test, 1 = trial; part 0 = none, p >= 1 = the      *)
 (* (p-1)-th sub-space of a MixedFunctionSpace), coefficients, literals,    *)
 (* + - * / neg conj real imag abs pow inner dot outer index list var isum   *)
-(* (isum(a, b) = a[i]*b[i], an IndexSum over a free index).                *)
+(* (isum(a, b) = a[i]*b[i], an IndexSum over a free index), and the        *)
+(* restrictions rp(a) = a('+'), rm(a) = a('-') to the two sides of an      *)
+(* interior facet (Sides = 2: every slot of the test / trial value vector  *)
+(* names a side; a node also carries `sv` = its value with every terminal  *)
+(* replaced by its '+' / '-' trace and `rs`, its restriction state).       *)
 (* Every record carries its shape, `degs` = the set of degrees of          *)
 (* homogeneity <<deg in test, deg in trial>> of its monomials (3 = under a *)
 (* nonlinear operator) and `val` = its exact value (module CQ) at every    *)
@@ -72,20 +76,37 @@ CONSTANTS
   OffsetBy,  \* "physical": FormSplitter.argument advances its offset into the flattened original argument by the
              \* physical value size of each sub-element (as coded, as intended); "reference": by the reference
              \* value size (the model-level counterexample: SplitterKeepsOwn fails)
-  Programs   \* {}: every term of the bound is built step by step; otherwise a set of [prog, ints]:
+  Programs,  \* {}: every term of the bound is built step by step; otherwise a set of [prog, ints]:
              \* sampled programs (drawn by the harness), each validated against the constructors'
              \* guards and taken as an initial state
+  Sides      \* 1: no interior facets.  2: the value vectors are those of the macro element of an interior facet:
+             \* VSlot / USlot (and VPartOf / UPartOf) list the components twice, slots 1..NV/2 are the '+' traces,
+             \* slots NV/2+1..NV the '-' traces of the same components; the constructors rp / rm (restriction to
+             \* '+' / '-') and the interior facet integral keys (FacetKeys) are available
 
 VARIABLES store, form, res
 vars == <<store, form, res>>
 
 ASSUME NV = Len(VSlot) /\ NU = Len(USlot) /\ Len(VPartOf) = NV /\ Len(UPartOf) = NU
+\* sides: the second half of the slots mirrors the first half
+NVh == NV \div Sides
+NUh == NU \div Sides
+ASSUME /\ Sides \in {1, 2} /\ NVh * Sides = NV /\ NUh * Sides = NU
+       /\ \A s \in (NVh + 1)..NV : VSlot[s] = VSlot[s - NVh] /\ VPartOf[s] = VPartOf[s - NVh]
+       /\ \A s \in (NUh + 1)..NU : USlot[s] = USlot[s - NUh] /\ UPartOf[s] = UPartOf[s - NUh]
+SideV(s) == IF s <= NVh THEN 1 ELSE 2          \* 1: '+', 2: '-'
+SideU(s) == IF s <= NUh THEN 1 ELSE 2
+PlainV(s) == IF s <= NVh THEN s ELSE s - NVh   \* the slot of the same component on the '+' side
+PlainU(s) == IF s <= NUh THEN s ELSE s - NUh
+SvN == IF Sides = 2 THEN 2 ELSE 0               \* number of restriction contexts (length of `sv`)
+FacetKeys == {5, 6}                             \* integral keys of interior facet integrals
 \* the flattened value vector of a MixedElement space: sub-element i occupies Phys(i) consecutive slots
 SubOk(sub, K, N, PartOf) ==
   sub = << >> \/ /\ Len(sub) = K
                  /\ \A i \in 1..K : sub[i][1] >= 1 /\ sub[i][2] >= 1 /\ sub[i][2] <= sub[i][1]
                  /\ LET off[k \in 0..K] == IF k = 0 THEN 0 ELSE off[k - 1] + sub[k][1]
-                    IN off[K] = N /\ \A i \in 1..K, s \in 1..N : (PartOf[s] = i) <=> (s > off[i - 1] /\ s <= off[i])
+                        Nh == N \div Sides
+                    IN off[K] = Nh /\ \A i \in 1..K, s \in 1..Nh : (PartOf[s] = i) <=> (s > off[i - 1] /\ s <= off[i])
 ASSUME (Mixed # "element" => VSub = << >> /\ USub = << >>) /\ OffsetBy \in {"physical", "reference"}
 ASSUME SubOk(VSub, KV, NV, VPartOf) /\ SubOk(USub, KU, NU, UPartOf)
 
@@ -112,7 +133,7 @@ ValidDegs == {<<0, 0>>, <<1, 0>>, <<1, 1>>}
 OpDegs(op, ds) ==
   LET A == ds[1]  B == ds[Len(ds)] IN
   CASE op \in {"add", "sub"} -> A \cup B
-    [] op \in {"neg", "conj", "real", "imag", "var", "index"} -> A
+    [] op \in {"neg", "conj", "real", "imag", "var", "index", "rp", "rm"} -> A
     [] op \in {"mul", "inner", "dot", "outer", "isum"} -> DMul(A, B)
     [] op = "div" -> IF B = DZ THEN A ELSE NLD
     [] op = "abs" -> IF A = DZ THEN DZ ELSE NLD
@@ -123,7 +144,7 @@ OpDegs(op, ds) ==
 (* Values: every constructor as a function of operand records with fields sh, val *)
 OpSh(op, mi, xs) ==
   LET x == xs[1]  y == xs[Len(xs)] IN
-  CASE op \in {"add", "sub", "neg", "conj", "real", "imag", "abs", "var", "div"} -> x.sh
+  CASE op \in {"add", "sub", "neg", "conj", "real", "imag", "abs", "var", "div", "rp", "rm"} -> x.sh
     [] op = "mul" -> IF x.sh = << >> THEN y.sh ELSE x.sh
     [] op \in {"pow", "inner", "dot", "index", "isum"} -> << >>
     [] op = "outer" -> x.sh \o y.sh
@@ -145,6 +166,9 @@ OpVal(op, mi, xs) ==
     [] op = "real" -> PW(x.sh, LAMBDA p, c : CRe(x.val[p][c]))
     [] op = "imag" -> PW(x.sh, LAMBDA p, c : CIm(x.val[p][c]))
     [] op = "var" -> x.val
+    \* a('+') / a('-'): the value of a with every terminal replaced by its trace on that side
+    [] op = "rp" -> x.sv[1]
+    [] op = "rm" -> x.sv[2]
     \* inner(a, b) = sum_c a_c conj(b_c);  dot: no conjugation;  outer(a, b) = conj(a) (x) b
     [] op = "inner" -> PW(<< >>, LAMBDA p, c : CSumSet(Tup(x.sh), LAMBDA t : CMul(x.val[p][t], CConj(y.val[p][t]))))
     \* isum(a, b) = a[i]*b[i] (IndexSum of a Product of Indexed with a free index): the value of dot
@@ -156,20 +180,37 @@ OpVal(op, mi, xs) ==
     \* a list tensor of vectors of equal length (the matrix-valued pieces of ufl.split; only built in the prelude)
     [] op = "rows" -> PW(<<Len(xs)>> \o x.sh, LAMBDA p, c : xs[c[1] + 1].val[p][Tail(c)])
 
-N(op, args, mi, sh, val, degs) ==
-  [op |-> op, args |-> args, mi |-> mi, sh |-> sh, val |-> val, degs |-> degs]
+\* sv: << >> (Sides = 1, or the node contains a restriction: it cannot be restricted again), otherwise
+\*     <<value on the '+' side, value on the '-' side>>
+\* rs: restriction state: "lit" (no Argument / Coefficient below), "free" (none of them restricted: an
+\*     integrand of a cell / exterior facet integral, and what rp / rm may be applied to), "done" (each of
+\*     them below exactly one restriction: an integrand of an interior facet integral)
+N(op, args, mi, sh, val, degs, sv, rs) ==
+  [op |-> op, args |-> args, mi |-> mi, sh |-> sh, val |-> val, degs |-> degs, sv |-> sv, rs |-> rs]
 
+OpRs(op, rss) == IF op \in {"rp", "rm"} \/ "done" \in rss THEN "done" ELSE IF "free" \in rss THEN "free" ELSE "lit"
 MkNode(s, op, args, mi) ==
-  LET xs == [k \in 1..Len(args) |-> s[args[k]]] IN
-  N(op, args, mi, OpSh(op, mi, xs), OpVal(op, mi, xs), OpDegs(op, [k \in 1..Len(args) |-> xs[k].degs]))
+  LET xs == [k \in 1..Len(args) |-> s[args[k]]]
+      rs == OpRs(op, {xs[k].rs : k \in 1..Len(args)})
+  IN N(op, args, mi, OpSh(op, mi, xs), OpVal(op, mi, xs), OpDegs(op, [k \in 1..Len(args) |-> xs[k].degs]),
+       IF rs = "done" THEN << >>
+       ELSE [c \in 1..SvN |-> OpVal(op, mi, [k \in 1..Len(args) |-> [sh |-> xs[k].sh, val |-> xs[k].sv[c]]])],
+       rs)
 
 \* the language's well-formedness rules, restricted to constructions whose real object has the
 \* same operator structure (no construction-time rewriting other than operand sorting)
 IsLit(x) == x.op = "lit"
-IndexableOps == {"arg", "coef", "outer", "var", "conj", "real", "imag"}
-FreeIndexableOps == {"arg", "coef", "var", "conj", "real", "imag", "list"}
+IndexableOps == {"arg", "coef", "outer", "var", "conj", "real", "imag", "rp", "rm"}
+FreeIndexableOps == {"arg", "coef", "var", "conj", "real", "imag", "list", "rp", "rm"}
+\* restrictions: only of an expression without restrictions that has an Argument or a Coefficient (ufl returns
+\* a restricted literal unchanged and refuses to restrict twice); no operator mixes restricted and
+\* unrestricted Arguments / Coefficients (such an expression is an integrand of no integral type)
+RsOk(s, op, args) ==
+  IF op \in {"rp", "rm"} THEN Sides = 2 /\ s[args[1]].rs = "free"
+  ELSE ~({"free", "done"} \subseteq {s[args[k]].rs : k \in 1..Len(args)})
 OkNode(s, op, args, mi) ==
   LET x == s[args[1]]  y == s[args[Len(args)]] IN
+  RsOk(s, op, args) /\
   CASE op \in {"add", "sub"} -> x.sh = y.sh /\ ~(IsLit(x) /\ IsLit(y))
     [] op = "neg" -> ~IsLit(x)
     [] op = "mul" -> (x.sh = << >> \/ y.sh = << >>) /\ ~(IsLit(x) /\ IsLit(y)) /\ Len(x.sh) < 2 /\ Len(y.sh) < 2
@@ -179,6 +220,7 @@ OkNode(s, op, args, mi) ==
     [] op = "conj" -> x.op \notin {"lit", "abs", "real", "imag", "conj"}
     [] op \in {"real", "imag"} -> x.op \notin {"lit", "abs", "real", "imag", "conj"}
     [] op = "var" -> ~IsLit(x) /\ x.op # "var"
+    [] op \in {"rp", "rm"} -> TRUE
     [] op = "inner" -> x.sh = y.sh /\ Len(x.sh) >= 1
     [] op = "dot" -> x.sh = y.sh /\ Len(x.sh) = 1
     [] op = "outer" -> Len(x.sh) = 1 /\ Len(y.sh) = 1
@@ -195,12 +237,18 @@ OkNode(s, op, args, mi) ==
 
 -----------------------------------------------------------------------------
 (* Initial store *)
-ArgVal(a) == [p \in Pts |-> [c \in Tup(Args[a].sh) |->
-                IF Args[a].num = 0 THEN (IF p[2] > 0 /\ VSlot[p[2]] = <<a, c>> THEN C1 ELSE C0)
-                ELSE (IF p[3] > 0 /\ USlot[p[3]] = <<a, c>> THEN C1 ELSE C0)]]
-ArgNode(a) == N("arg", << >>, <<a>>, Args[a].sh, ArgVal(a), {IF Args[a].num = 0 THEN <<1, 0>> ELSE <<0, 1>>})
-CoefNode(k) == N("coef", << >>, <<k>>, Coefs[k].sh, [p \in Pts |-> CoefVal[p[1]][k]], DZ)
-LitNode(k) == N("lit", << >>, <<k>>, << >>, [p \in Pts |-> (<< >> :> Lits[k].v)], DZ)
+\* side = 0: the unrestricted value (in a cell integral: the unit vector, whichever side the slot names);
+\* side = 1 / 2: the trace on the '+' / '-' side (the unit vector on the slot's side, zero on the other side)
+ArgVal(a, side) == [p \in Pts |-> [c \in Tup(Args[a].sh) |->
+                IF Args[a].num = 0 THEN (IF p[2] > 0 /\ VSlot[p[2]] = <<a, c>> /\ side \in {0, SideV(p[2])} THEN C1 ELSE C0)
+                ELSE (IF p[3] > 0 /\ USlot[p[3]] = <<a, c>> /\ side \in {0, SideU(p[3])} THEN C1 ELSE C0)]]
+ArgNode(a) == N("arg", << >>, <<a>>, Args[a].sh, ArgVal(a, 0), {IF Args[a].num = 0 THEN <<1, 0>> ELSE <<0, 1>>},
+                [c \in 1..SvN |-> ArgVal(a, c)], "free")
+\* the '-' trace of a coefficient in environment e is its value in the next environment (cyclically)
+CoefNode(k) == N("coef", << >>, <<k>>, Coefs[k].sh, [p \in Pts |-> CoefVal[p[1]][k]], DZ,
+                 [c \in 1..SvN |-> [p \in Pts |-> CoefVal[IF c = 2 THEN (p[1] % NEnv) + 1 ELSE p[1]][k]]], "free")
+LitNode(k) == N("lit", << >>, <<k>>, << >>, [p \in Pts |-> (<< >> :> Lits[k].v)], DZ,
+                [c \in 1..SvN |-> [p \in Pts |-> (<< >> :> Lits[k].v)]], "lit")
 Base == [a \in 1..Len(Args) |-> ArgNode(a)] \o [k \in 1..Len(Coefs) |-> CoefNode(k)]
         \o [k \in 1..Len(Lits) |-> LitNode(k)]
 RECURSIVE WithPrelude(_, _)
@@ -215,14 +263,17 @@ RunProg(s, prog, k) ==
   IF k > Len(prog) THEN s
   ELSE LET n == prog[k] IN
        IF /\ n.op \in OpSet
-          /\ Len(n.args) = (IF n.op \in {"neg", "abs", "conj", "real", "imag", "var", "index"} THEN 1 ELSE 2)
+          /\ Len(n.args) = (IF n.op \in {"neg", "abs", "conj", "real", "imag", "var", "index", "rp", "rm"} THEN 1 ELSE 2)
           /\ \A j \in 1..Len(n.args) : n.args[j] \in 1..Len(s) /\ (n.args[j] > NInit \/ n.args[j] \in Usable)
           /\ OkNode(s, n.op, n.args, n.mi)
        THEN RunProg(Append(s, MkNode(s, n.op, n.args, n.mi)), prog, k + 1)
        ELSE << >>
+\* interior facet integrals take the integrands in which everything is restricted, the others those without restrictions
+KeyOk(s, key, n) == (key \in FacetKeys) <=> (s[n].rs = "done")
 FormOk(s, ints) == /\ Len(ints) \in {1, 2}
-                   /\ \A k \in 1..Len(ints) : /\ ints[k].root \in 1..Len(s) /\ ints[k].key \in 1..4
+                   /\ \A k \in 1..Len(ints) : /\ ints[k].root \in 1..Len(s) /\ ints[k].key \in 1..6
                                                /\ s[ints[k].root].sh = << >> /\ s[ints[k].root].op # "lit"
+                                               /\ KeyOk(s, ints[k].key, ints[k].root)
 
 Init == IF Programs = {}
         THEN store = WithPrelude(Base, 1) /\ form = << >> /\ res = "none"
@@ -249,7 +300,9 @@ SZ(n, DV, DU) ==            \* the rebuilt node n is a Zero
     [] x.op \in {"add", "sub"} -> SZ(x.args[1], DV, DU) /\ SZ(x.args[2], DV, DU)
     [] x.op \in {"mul", "inner", "dot", "outer", "isum"} -> SZ(x.args[1], DV, DU) \/ SZ(x.args[2], DV, DU)
     [] x.op \in {"list", "rows"} -> \A k \in 1..Len(x.args) : SZ(x.args[k], DV, DU)
-    [] OTHER -> SZ(x.args[1], DV, DU)       \* neg conj real imag abs pow(base) div(numerator) var
+    \* neg conj real imag abs pow(base) div(numerator) var; rp rm (FormSplitter.restricted: the operand is split,
+    \* a Zero is returned as it is, anything else is restricted to the side of the visited node)
+    [] OTHER -> SZ(x.args[1], DV, DU)
 RECURSIVE ArgsIn(_, _, _)
 ArgsIn(n, DV, DU) ==        \* the Arguments left in the rebuilt node n
   LET x == store[n] IN
@@ -503,9 +556,11 @@ Adv(sz) == IF OffsetBy = "reference" THEN sz[2] ELSE sz[1]
 PosOff(sub, i) == LET f[k \in 0..Len(sub)] == IF k = 0 THEN 0 ELSE f[k - 1] + sub[k][1] IN f[i - 1]
 CntOff(sub, i) == LET f[k \in 0..Len(sub)] == IF k = 0 THEN 0 ELSE f[k - 1] + Adv(sub[k]) IN f[i - 1]
 KeptPos(sub, i, s) == LET d == s - CntOff(sub, i) IN IF s > 0 /\ d >= 1 /\ d <= sub[i][1] THEN PosOff(sub, i) + d ELSE 0
-VKeep(i, s) == IF VSub = << >> THEN (IF s \in DeadV(i) THEN 0 ELSE s) ELSE KeptPos(VSub, i, s)
+\* (Sides = 2: the same component on the same side)
+OnSide(k, s, plain) == IF k = 0 THEN 0 ELSE k + (s - plain)
+VKeep(i, s) == IF VSub = << >> THEN (IF s \in DeadV(i) THEN 0 ELSE s) ELSE OnSide(KeptPos(VSub, i, PlainV(s)), s, PlainV(s))
 UKeep(j, t) == IF Arity # 2 THEN t
-               ELSE IF USub = << >> THEN (IF t \in DeadU(j) THEN 0 ELSE t) ELSE KeptPos(USub, j, t)
+               ELSE IF USub = << >> THEN (IF t \in DeadU(j) THEN 0 ELSE t) ELSE OnSide(KeptPos(USub, j, PlainU(t)), t, PlainU(t))
 EBValKeep(k, i, j) ==
   IF EBNone(i, j) THEN ZVal(<< >>)
   ELSE [p \in Pts |-> store[form[k].root].val[<<p[1], VKeep(i, p[2]), UKeep(j, p[3])>>]]
@@ -515,7 +570,7 @@ EBSum(k) == SVal(LAMBDA p : CSumSet((1..EBShape[1]) \X EBCols, LAMBDA ij : EBVal
 (* Actions *)
 Ids == 1..Len(store)
 Avail == (Usable \cup ((NInit + 1)..Len(store)))
-Un1 == {"neg", "abs", "conj", "real", "imag", "var"} \cap OpSet
+Un1 == {"neg", "abs", "conj", "real", "imag", "var", "rp", "rm"} \cap OpSet
 Bin2 == {"add", "sub", "mul", "div", "pow", "inner", "dot", "outer", "isum"} \cap OpSet
 Comm == {"add", "mul", "dot", "isum"}
 Push(op, args, mi) == OkNode(store, op, args, mi) /\ store' = Append(store, MkNode(store, op, args, mi))
@@ -542,9 +597,11 @@ IsIntegrand(n) == store[n].sh = << >> /\ store[n].op \notin {"lit"}
 MkForm ==
   /\ form = << >> /\ Len(store) > NInit /\ IsIntegrand(LastId)
   /\ UNCHANGED <<store, res>>
-  /\ \/ (NInit + 1)..LastId \subseteq Anc(LastId, {}) /\ form' = <<[key |-> 1, root |-> LastId]>>
+  /\ \/ /\ (NInit + 1)..LastId \subseteq Anc(LastId, {})
+        /\ form' = <<[key |-> IF store[LastId].rs = "done" THEN 5 ELSE 1, root |-> LastId]>>
      \/ \E r \in Avail \ {LastId}, kp \in KeyPairs :
           /\ IsIntegrand(r) /\ store[r].degs # DZ
+          /\ KeyOk(store, kp[1], r) /\ KeyOk(store, kp[2], LastId)
           /\ (NInit + 1)..LastId \subseteq Anc(LastId, Anc(r, {}))
           /\ form' = <<[key |-> kp[1], root |-> r], [key |-> kp[2], root |-> LastId]>>
 
@@ -571,6 +628,7 @@ AllK(P(_)) == \A k \in 1..NInt : P(k)
 
 WellFormed == \A n \in Ids : LET x == store[n] IN
   /\ DOMAIN x.val = Pts /\ \A p \in Pts : DOMAIN x.val[p] = Tup(x.sh)
+  /\ Len(x.sv) = (IF x.rs = "done" THEN 0 ELSE SvN) /\ \A c \in 1..Len(x.sv) : DOMAIN x.sv[c] = Pts
   /\ \A k \in 1..Len(x.args) : x.args[k] < n
 \* the meaning is well defined: a form of the valid class is the sum of its three parts
 MeaningSound == (form # << >> /\ Valid) =>
